@@ -291,6 +291,10 @@ var mavenHard = []string{"[1.0,2.0)", "[1.1]", "(,2.0]", "[2.0,)", "[1.0,1.2]", 
 
 type MavenUOpts struct {
 	NoRanges bool
+	// Ties adds a second spelling of a version with the same precedence
+	// (1.0 next to 1.0.0), as Maven Central has them: the order of the two in
+	// a listing must not depend on the order they were added in.
+	Ties bool
 }
 
 func MavenUniverse(o MavenUOpts) *rapid.Generator[Universe] {
@@ -308,6 +312,13 @@ func MavenUniverse(o MavenUOpts) *rapid.Generator[Universe] {
 		vlists := make([][]string, n)
 		for i := 0; i < n; i++ {
 			vlists[i] = pickDistinct(t, mavenVersionPool, rapid.IntRange(1, 5).Draw(t, "nv"), "versions")
+			if o.Ties && rapid.IntRange(0, 2).Draw(t, "ties") == 0 {
+				base := vlists[i][len(vlists[i])-1]
+				vlists[i] = append(vlists[i], base+".0")
+				if rapid.Bool().Draw(t, "ties3") {
+					vlists[i] = append(vlists[i], base+"-ga")
+				}
+			}
 		}
 		for i := 0; i < n; i++ {
 			p := UPkg{Name: names[i]}
@@ -601,6 +612,27 @@ func inheritReqs(t *rapid.T, p *UPkg) {
 }
 
 var aliasVersionRE = regexp.MustCompile(`(KnownAs al[0-9]+)v[0-9]+`)
+
+// PyPIUniverseTies is PyPIUniverse with a second spelling of some versions
+// (1.0 next to 1.0.0: equal under PEP 440, distinct as keys).
+func PyPIUniverseTies() *rapid.Generator[Universe] {
+	return rapid.Custom(func(t *rapid.T) Universe {
+		u := PyPIUniverse().Draw(t, "base")
+		for i := range u.Pkgs {
+			if rapid.IntRange(0, 2).Draw(t, "ties") != 0 {
+				continue
+			}
+			last := u.Pkgs[i].Versions[len(u.Pkgs[i].Versions)-1]
+			if strings.ContainsAny(last.Version, "abcdefghijklmnopqrstuvwxyz") {
+				continue
+			}
+			twin := last
+			twin.Version = last.Version + ".0"
+			u.Pkgs[i].Versions = append(u.Pkgs[i].Versions, twin)
+		}
+		return u
+	})
+}
 
 func PyPIUniverse() *rapid.Generator[Universe] {
 	return rapid.Custom(func(t *rapid.T) Universe {
